@@ -82,6 +82,11 @@ def run_case(params: dict) -> dict:
     hrng = random.Random(f"{params['seed']}:C05:how:{params.get('n', params.get('case'))}")
     for ev in script:
         ev['how'] = hrng.choice(['assign', 'assign', 'section', 'parent'])
+    # some downloaders drop their peer connection after queueing: the uploader then has to reach them first, which
+    # takes a while (the selected upload is being negotiated although no message has been exchanged yet)
+    for u in pop:
+        u['drops_link'] = hrng.random() < 0.35
+        u['reach_latency'] = hrng.choice([0.3, 1.0, 3.0])
     script.sort(key=lambda e: e['at'])
     tm = TransferMonitor()
     viol: list = []
@@ -135,7 +140,11 @@ def run_case(params: dict) -> dict:
         rp = remote_paths(up.client)
         names = sorted(rp)
 
+        slow_ports: dict = {}
+
         def planner(node, host, port, attempt):
+            if node == 'up' and port in slow_ports:
+                return ConnPlan(latency=slow_ports[port])
             return ConnPlan(latency=rng.uniform(0.001, 0.12))
         w.net.planner = planner
 
@@ -148,6 +157,10 @@ def run_case(params: dict) -> dict:
             d = Downloader(w, peer, 'up', up.port, rng)
             d.default.update(hold=p['hold'], reply=p['reply'], read=p['read'])
             dls.append(d)
+            if p['drops_link']:
+                for prt in (peer.port, peer.obf_port):
+                    if prt:
+                        slow_ports[prt] = p['reach_latency']
         unknown = {p['name'] for p in pop if p['status'] == 'unknown'}
         default_answer = w.server.user_answer
         w.server.user_answer = lambda s, u: 'notexists' if u in unknown else default_answer(s, u)
@@ -247,6 +260,12 @@ def run_case(params: dict) -> dict:
                 await asyncio.sleep(rng.choice([0.0, 0.0, 0.01, 0.05, 0.3]))
                 try:
                     await dls[pi].queue(rp[names[fi]])
+                    if pop[pi]['drops_link']:
+                        await asyncio.sleep(0.02)
+                        link = dls[pi].link
+                        if link is not None and not link.closed:
+                            link.close()
+                            obs['links_dropped_after_queueing'] = obs.get('links_dropped_after_queueing', 0) + 1
                 except (ConnectionError, OSError):
                     pass
         qtask = w.spawn('harness', queue_all(), name='vf-queue-all')
